@@ -275,7 +275,8 @@ struct World
   uint64_t grace_ns{0};
   std::deque<WInfo> workers; // deque: worker lambdas keep pointers to their WInfo
   std::deque<LoggerInfo> loggers;
-  std::deque<SinkInfo> sinks;
+  std::deque<SinkInfo> sinks;              // sink INSTANCES (a name from the pool can be re-created after the previous instance died)
+  std::map<std::string, int> sink_by_name; // name -> most recent instance
   std::deque<Stmt> stmts;
   std::deque<FlushRec> flushes;
   std::vector<JEntry> journal;
@@ -311,7 +312,9 @@ struct World
 
 void journal_push(JEntry e)
 {
-  if (g_world) g_world->journal.push_back(std::move(e));
+  if (!g_world) return;
+  if (e.kind == 'D' && e.sink >= 0 && static_cast<size_t>(e.sink) < g_world->sinks.size()) g_world->sinks[static_cast<size_t>(e.sink)].destroyed = true;
+  g_world->journal.push_back(std::move(e));
 }
 
 void RecSink::flush_sink()
